@@ -308,6 +308,45 @@ def _separators(ctx, rule):
     return c07.r1_separator_inclusion(ctx, rule)
 
 
+def r14_counters_use_the_multiplicity(ctx, rule):
+    """A collapsed line `n password` stands for n lines: once the multiplicity is known, whatever the reader counts for that line -
+    a password accepted, an encoding error - it counts n times.  (Seed C19-db: the $HEX[] failure branch counted 1: config.ini of
+    the collapsed list records fewer encoding errors than that of the plain list.)"""
+    from ..cfg import CFG
+    fn = ctx.fn(RP)
+    mod = ctx.repo.modules[RP.partition('::')[0]]
+    ctx.stats['functions'].add(RP)
+    stores = stores_in(fn)
+    mult = [nm for nm, lst in stores.items() if any(v is not None and const(v) == 1 for s_, v in lst)
+            and any(v is not None and isinstance(v, ast.Call) and call_name(v) == 'int' for s_, v in lst)]
+    if len(mult) != 1:
+        ctx.unk(rule, RP, 'the multiplicity variable of read_password is not identifiable (%s)' % mult)
+        return
+    n = mult[0]
+    cfg = CFG(fn)
+    defs = [cfg.node_of(s_) for s_, v in stores[n] if cfg.node_of(s_) is not None]
+    incs = [st for st in walk_local(fn) if isinstance(st, ast.AugAssign) and isinstance(st.op, ast.Add)
+            and isinstance(st.target, ast.Attribute) and U(st.target.value) == 'self' and st.target.attr.startswith('num_')]
+    ok = True
+    k = 0
+    for st in incs:
+        node = cfg.node_of(st)
+        if node is None:
+            continue
+        # is the multiplicity defined on every path to this increment?  (the readline failure counts before the line is even split)
+        after = all(any(node in cfg.reachable(d) for d in defs) for _ in (0,)) and cfg.every_path_passes(cfg.entry, node, set(defs))
+        if not after:
+            continue
+        k += 1
+        if U(st.value) != n:
+            ok = False
+            ctx.bad(rule, RP, '%s += %s where the multiplicity %s of the line is known' % (U(st.target), U(st.value), n),
+                    'with --prefixcount a line stands for n lines: its encoding error / its password is counted n times, as the plain '
+                    'repeated lines would be', None, st, firm=True)
+    if ctx.floor(rule, RP, k, 3, 'counter increments behind the multiplicity') and ok:
+        ctx.ok(rule, RP, 'the %d counter increments behind the definition of %s all add %s' % (k, n, n))
+
+
 def r12_control_characters_rejected(ctx, rule):
     """'lines containing tabs or control characters ... are skipped': the set of characters check_valid rejects (C07's reject-set
     extraction: constant membership guards, range loops over chr(i), any()/isdisjoint forms) contains every C0 control character
@@ -381,11 +420,13 @@ def _shared_rule(mod, name, **kw):
 def rules(tier):
     return [('C19.R1', r1_three_passes), ('C19.R2', r2_password_count), ('C19.R3', r3_multiplicity_and_r6_strip),
             ('C19.R4', r4_skip_paths), ('C19.R5', r5_reader_encoding_and_eol),
-            ('C19.R6', _validated), ('C19.R7', r7_autodetect), ('C19.R8', _separators), ('C19.R9', r9_side_lists_are_plain), ('C19.R12', r12_control_characters_rejected),
+            ('C19.R6', _validated), ('C19.R7', r7_autodetect), ('C19.R8', _separators), ('C19.R9', r9_side_lists_are_plain), ('C19.R12', r12_control_characters_rejected), ('C19.R14', r14_counters_use_the_multiplicity),
             # --prefixcount / --encoding reach the readers under their own keys
             ('C19.R10', _shared_rule('plumbing', 'option_round_trip')),
             # C19-ca: getattr(file_input, 'num_encoding_error', 0): the counter of skipped lines is always recorded as 0
-            ('C19.R11', _shared_rule('plumbing', 'defaulted_getattr'))]
+            ('C19.R11', _shared_rule('plumbing', 'defaulted_getattr')),
+            # C19-da: the training reader opened with errors='replace' - undecodable lines are trained on as U+FFFD and not counted
+            ('C19.R13', _shared_rule('plumbing', 'decode_error_policy'))]
 
 
 META = {
